@@ -588,8 +588,16 @@ def Plan.certainFault (p : Plan) : Bool :=
   || p.tr == .errBefore || p.resp == .stall || p.readerErr
   || (p.readN == none && p.rterm != .eof)
 
+/-- where the Spec's effective deadline comes from ("the shorter of the request timeout and the caller's
+context"): gn = there is none, gp = the caller's context, gt = call start + request timeout -/
+def specDeadlineKind (p : Plan) : String :=
+  match specDeadline p.timeout (parentCtx p.opCtx p.rtCtx).dl 0 with
+  | none => "gn"
+  | some e => if (parentCtx p.opCtx p.rtCtx).dl == some e then "gp" else "gt"
+
 /-- Spec of one call, judged on what was observed (from the property text):
-  * not later than the effective deadline (measured by the harness with slack: `late`);
+  * not later than the effective deadline (measured by the harness with slack: `late`), and the
+    deadline the transport saw on the request's context IS the effective one (`dkind`);
   * an error unless the complete response was obtained: no `ok` under a fault that certainly
     strikes — in particular a failing upload source is never reported as a success;
   * every file handed over (and a stream payload) has been closed; no goroutine of the call remains;
@@ -597,6 +605,8 @@ def Plan.certainFault (p : Plan) : Bool :=
     been reached (seen by the reader or by the drain) when it was closed. -/
 def specF (p : Plan) (o : Obs) : Bool :=
   !o.late
+  -- the deadline the transport saw on the request's context is the effective one (g: transport not entered)
+  && (o.dkind == "g" || o.dkind == specDeadlineKind p)
   && (o.ok → !p.certainFault)
   && o.fileCloses.all (fun c => decide (1 ≤ c))
   && (match o.streamCloses with | some c => decide (1 ≤ c) | none => true)
